@@ -587,6 +587,114 @@ func (w *Workspace) structuralC19() *FuncResult {
 			}
 		}
 		_ = fromInit
+		// Validate must tell the records of a list apart exactly as the store does: an exported state lists what the
+		// store held side by side, so a duplicate test on any other key can reject it (or accept a list the import
+		// then collapses)
+		if tp := w.ssaPkgs[modPath+"/x/"+mod+"/types"]; tp != nil {
+			keyCalls := func(fn *ssa.Function, visit func(k *ssa.Function, cc *ssa.CallCommon)) {
+				for _, b := range fn.Blocks {
+					for _, ins := range b.Instrs {
+						if ci, ok := ins.(ssa.CallInstruction); ok {
+							if k := ci.Common().StaticCallee(); k != nil && k.Pkg == tp && strings.HasSuffix(k.Name(), "Key") && k.Name() != "KeyPrefix" {
+								visit(k, ci.Common())
+							}
+						}
+					}
+				}
+			}
+			named := func(t types.Type) string {
+				if pt, ok := t.Underlying().(*types.Pointer); ok {
+					t = pt.Elem()
+				}
+				if n, ok := t.(*types.Named); ok && n.Obj().Pkg() != nil && n.Obj().Pkg().Path() == tp.Pkg.Path() {
+					return n.Obj().Name()
+				}
+				return ""
+			}
+			storeKeys := map[string]map[string]bool{} // record type -> key builders used by the accessor genesis import calls
+			for _, direct := range callees[initFn] {
+				ps := direct.Signature.Params()
+				if ps.Len() == 0 {
+					continue
+				}
+				T := named(ps.At(ps.Len() - 1).Type())
+				if T == "" {
+					continue
+				}
+				for fn := range reach(direct) {
+					keyCalls(fn, func(k *ssa.Function, _ *ssa.CallCommon) {
+						if storeKeys[T] == nil {
+							storeKeys[T] = map[string]bool{}
+						}
+						storeKeys[T][k.Name()] = true
+					})
+				}
+			}
+			var validate *ssa.Function
+			if gt, ok := tp.Members["GenesisState"].(*ssa.Type); ok {
+				for _, t := range []types.Type{gt.Type(), types.NewPointer(gt.Type())} {
+					ms := w.prog.MethodSets.MethodSet(t)
+					for i := 0; i < ms.Len(); i++ {
+						if fn := w.prog.MethodValue(ms.At(i)); fn != nil && fn.Name() == "Validate" && fn.Synthetic == "" {
+							validate = fn
+						}
+					}
+				}
+			}
+			if validate != nil {
+				var recOf func(v ssa.Value, depth int) string
+				recOf = func(v ssa.Value, depth int) string {
+					if depth > 8 || v == nil {
+						return ""
+					}
+					switch x := v.(type) {
+					case *ssa.UnOp:
+						return recOf(x.X, depth+1)
+					case *ssa.FieldAddr:
+						if n := named(x.X.Type()); n != "" && n != "GenesisState" {
+							return n
+						}
+						return recOf(x.X, depth+1)
+					case *ssa.Field:
+						if n := named(x.X.Type()); n != "" && n != "GenesisState" {
+							return n
+						}
+						return recOf(x.X, depth+1)
+					case *ssa.Convert:
+						return recOf(x.X, depth+1)
+					case *ssa.ChangeType:
+						return recOf(x.X, depth+1)
+					}
+					return ""
+				}
+				ok, why := true, "every duplicate test in Validate uses a key builder of the accessor that stores the record"
+				checked := 0
+				keyCalls(validate, func(k *ssa.Function, cc *ssa.CallCommon) {
+					T := ""
+					for _, a := range cc.Args {
+						if r := recOf(a, 0); r != "" {
+							T = r
+						}
+					}
+					if T == "" || storeKeys[T] == nil {
+						return
+					}
+					checked++
+					if !storeKeys[T][k.Name()] {
+						var ks []string
+						for n := range storeKeys[T] {
+							ks = append(ks, n)
+						}
+						sort.Strings(ks)
+						ok, why = false, fmt.Sprintf("Validate of x/%s tells %s records apart by %s, the store keys them by %s: records the store holds side by side are exported and then rejected as duplicates", mod, T, k.Name(), strings.Join(ks, "/"))
+					}
+				})
+				if ok {
+					why = fmt.Sprintf("%s (%d duplicate tests checked)", why, checked)
+				}
+				res.Obls = append(res.Obls, structural("x/"+mod+"/types.(GenesisState).Validate", "tells_records_apart_as_the_store_does", []string{"C19"}, ok, why))
+			}
+		}
 		var setters []*ssa.Function
 		for _, fn := range fns {
 			if writes[fn] && fn.Parent() == nil && len(prefixes[fn]) > 0 {
